@@ -7,3 +7,8 @@ import SJ.Props.C05
 #print axioms SJ.Props.C05.c05_swar_first_escape
 #print axioms SJ.Props.C05.c05_swar_in_bounds
 #print axioms SJ.Props.C05.c05_first_escape_char
+#print axioms SJ.Props.C05.c05_decode_spec
+#print axioms SJ.Props.C05.c05_decode_reject
+#print axioms SJ.Props.C05.c05_roundtrip
+#print axioms SJ.Props.C05.c05_roundtrip_written
+#print axioms SJ.Props.C05.c05_str_source_utf8
